@@ -28,16 +28,27 @@ theorem stmt_step {bbs : List BBox} {ord : Ord} (hord : OrdOK ord) {st : TState}
     (h : FI Def E B U st.c) (hg : st.gateExprs = []) (s : RStmt) (hok : s.OK bbs)
     (hnew : ∀ n t t', s.dty bbs n t → ¬ Def n t')
     (hregnew : ∀ i ∈ s.instName, ∀ d, ¬ B (i, d))
-    (hU : ∀ n ∈ s.uses bbs, U n) (hdefs : (s.defs bbs).Nodup) :
+    (hU : ∀ n b, s.edge bbs (.net n) b → Plain n → U n) (hdefs : (s.defs bbs).Nodup) :
     ∃ st', doItem bbs ord (st, dcl) s.item = .ok (st', dcl) ∧ st'.gateExprs = [] ∧ st'.c.name = st.c.name ∧
       FI (fun x t => Def x t ∨ s.dty bbs x t)
          (fun e => E e ∨ ∃ a b, s.edge bbs a b ∧ e = (a.nm "tie_0" "tie_1", b))
          (fun q => B q ∨ s.reg bbs q) U st'.c := by
   cases s with
   | gate ty inst out ops =>
-    exact gate_step dcl h hg ty inst out ops hok (fun t => hnew out ty t ⟨rfl, rfl⟩) hU
+    refine gate_step dcl h hg ty inst out ops hok (fun t => hnew out ty t ⟨rfl, rfl⟩) (fun n hn => ?_)
+    refine hU n out ⟨hn, rfl⟩ (hok.2.2.2.2.2 n ?_)
+    rcases mem_parityOps hn with hm | hm
+    · exact List.mem_flatMap.2 ⟨_, hm, by simp [ROp.nets]⟩
+    · cases hm
   | assign l r =>
-    exact assign_step dcl h hg l r hok (fun t => hnew l "buf" t ⟨rfl, rfl⟩) hU
+    refine assign_step dcl h hg l r hok (fun t => hnew l "buf" t ⟨rfl, rfl⟩) (fun n hn => ?_)
+    cases r with
+    | net m =>
+      simp only [ROp.nets, List.mem_singleton] at hn
+      subst hn
+      exact hU n l ⟨rfl, rfl⟩ (hok.2 n (by simp [ROp.nets]))
+    | c0 => simp [ROp.nets] at hn
+    | c1 => simp [ROp.nets] at hn
   | bb ty inst pins =>
     exact bb_step hord dcl h hg ty inst pins hok hnew (hregnew inst (by simp [RStmt.instName])) hU hdefs
 
@@ -51,18 +62,25 @@ theorem reg_inst {bbs : List BBox} {s : RStmt} {q : Name × BBox} (h : s.reg bbs
     obtain ⟨d, _, rfl⟩ := h
     simp [RStmt.instName]
 
-theorem stmts_fold {bbs : List BBox} {ord : Ord} (hord : OrdOK ord) (ins : List Name) (U : Name → Prop) (dcl : Decls)
+/-- nets that exist as auto-created buffers: plain names at which an edge of the statements read so far starts -/
+def USrc (bbs : List BBox) (ss : List RStmt) (x : Name) : Prop :=
+  Plain x ∧ ∃ e, EdgeOf bbs ss "tie_0" "tie_1" e ∧ e.1 = x
+
+theorem stmts_fold {bbs : List BBox} {ord : Ord} (hord : OrdOK ord) (ins : List Name) (dcl : Decls)
     (st0 : TState) (hg0 : st0.gateExprs = [])
-    (h0 : FI (DefTy bbs ins []) (EdgeOf bbs [] "tie_0" "tie_1") (RegOf bbs []) U st0.c) :
-    ∀ ss : List RStmt, RL bbs ins ss → (∀ s ∈ ss, ∀ n ∈ s.uses bbs, U n) →
+    (h0 : FI (DefTy bbs ins []) (EdgeOf bbs [] "tie_0" "tie_1") (RegOf bbs []) (USrc bbs []) st0.c) :
+    ∀ ss : List RStmt, RL bbs ins ss →
     ∃ st', (ss.map RStmt.item).foldlM (doItem bbs ord) (st0, dcl) = .ok (st', dcl) ∧ st'.gateExprs = [] ∧
-      st'.c.name = st0.c.name ∧ FI (DefTy bbs ins ss) (EdgeOf bbs ss "tie_0" "tie_1") (RegOf bbs ss) U st'.c := by
+      st'.c.name = st0.c.name ∧
+      FI (DefTy bbs ins ss) (EdgeOf bbs ss "tie_0" "tie_1") (RegOf bbs ss) (USrc bbs ss) st'.c := by
   intro ss
   induction ss using rev_ind with
-  | h0 => intro _ _; exact ⟨st0, rfl, hg0, rfl, h0⟩
+  | h0 => intro _; exact ⟨st0, rfl, hg0, rfl, h0⟩
   | hs ss s ih =>
-    intro hrl hU
-    obtain ⟨st1, e1, g1, n1, f1⟩ := ih hrl.init (fun s' hs' => hU s' (by simp [hs']))
+    intro hrl
+    obtain ⟨st1, e1, g1, n1, f1'⟩ := ih hrl.init
+    have f1 : FI (DefTy bbs ins ss) (EdgeOf bbs ss "tie_0" "tie_1") (RegOf bbs ss) (USrc bbs (ss ++ [s])) st1.c :=
+      f1'.mono_U (fun x hx => ⟨hx.1, hx.2.imp (fun e he => ⟨edgeOf_append.2 (Or.inl he.1), he.2⟩)⟩) (fun x hx => hx.1)
     obtain ⟨st2, e2, g2, n2, f2⟩ := stmt_step hord dcl f1 g1 s hrl.last_ok
       (fun n t t' hd => hrl.fresh hd)
       (by
@@ -71,7 +89,7 @@ theorem stmts_fold {bbs : List BBox} {ord : Ord} (hord : OrdOK ord) (ins : List 
         have hin := hrl.instsNodup
         rw [List.flatMap_append, List.nodup_append] at hin
         exact hin.2.2 i (List.mem_flatMap.2 ⟨s', hs', h1⟩) i (by simpa using hi) rfl)
-      (hU s (by simp))
+      (fun n b hnb hp => ⟨hp, (n, b), edgeOf_append.2 (Or.inr ⟨.net n, b, hnb, rfl⟩), rfl⟩)
       (by
         have := (List.nodup_append.1 hrl.defsNodup).2.1
         rw [List.flatMap_append, List.nodup_append] at this
@@ -171,31 +189,44 @@ theorem tnm_c1 {a : ROp} (hv : a.Valid "tie_0" "tie_1") (h : a.nm "tie_0" "tie_1
 theorem full_spec {r : RMod} {bbs : List BBox} (h : Restricted r bbs) (ord : Ord) (hord : OrdOK ord) :
     ∃ cv, Verilog.transform r.toModule bbs ord = .ok cv ∧ Spec r bbs "tie_0" "tie_1" cv := by
   have hrl := RL.of_restricted h
-  let U : Name → Prop := fun x => Plain x ∧ ∃ s ∈ r.stmts, x ∈ s.uses bbs
-  have hUp : ∀ x, U x → Plain x := fun x hx => hx.1
+  have hUp : ∀ x, USrc bbs [] x → Plain x := fun x hx => hx.1
   have hinsnd : r.inputs.Nodup := (List.nodup_append.1 h.defsNodup).1
   -- declarations
-  obtain ⟨st1, e1, g1, n1, f1⟩ := inputs_fold (bbs := bbs) (ord := ord) U { c := VR.tie3 } rfl (fi_tie3 U hUp)
+  obtain ⟨st1, e1, g1, n1, f1⟩ := inputs_fold (bbs := bbs) (ord := ord) (USrc bbs []) { c := VR.tie3 } rfl (fi_tie3 _ hUp)
     r.toModule.ports r.inputs hinsnd h.inputsPlain
   have e2 := VR.ophase (bbs := bbs) (ord' := ord) r.outputs st1 { io := r.toModule.ports, inputs := r.inputs }
   -- statements
-  obtain ⟨st3, e3, g3, n3, f3⟩ := stmts_fold hord r.inputs U
+  obtain ⟨st3, e3, g3, n3, f3⟩ := stmts_fold hord r.inputs
     { io := r.toModule.ports, inputs := r.inputs, outputs := r.outputs } st1 g1
     (f1.congr (fun x t => by simp [DefTy]) (fun e => by simp [EdgeOf]) (fun q => by simp [RegOf]))
-    r.stmts hrl (fun s hs n hn => ⟨uses_plain (h.stmts s hs) hn, s, hs, hn⟩)
+    r.stmts hrl
   have hfold : r.toModule.items.foldlM (doItem bbs ord) ({ c := VR.tie3 }, { io := r.toModule.ports }) =
       .ok (st3, { io := r.toModule.ports, inputs := r.inputs, outputs := r.outputs }) := by
     show (r.inputs.map (fun i => Item.input [i]) ++ r.outputs.map (fun o => Item.output [o]) ++
       r.stmts.map RStmt.item).foldlM (doItem bbs ord) _ = _
     rw [List.foldlM_append, List.foldlM_append, e1, Arith.bind_ok, e2, Arith.bind_ok]
     simpa using e3
-  -- every node of the final state is a constant node or defined
-  have hdefd : ∀ x, st3.c.has x = true → VR.isTie x ∨ ∃ t, DefTy bbs r.inputs r.stmts x t := by
+  -- every node of the final state is a constant node, defined, or a floating net created as an undriven buffer
+  have hdefd : ∀ x, st3.c.has x = true → VR.isTie x ∨ (∃ t, DefTy bbs r.inputs r.stmts x t) ∨
+      (st3.c.attr? x = some bufAttr ∧ Floating bbs r.inputs r.stmts x) := by
     intro x hx
-    rcases f3.other x hx with h1 | h1 | ⟨_, _, s, hs, hu⟩
+    by_cases hd : ∃ t, DefTy bbs r.inputs r.stmts x t
+    · exact Or.inr (Or.inl hd)
+    rcases f3.other x hx with h1 | h1 | ⟨hat, hpl, e, ⟨s, hs, a, b, hab, rfl⟩, he1⟩
     · exact Or.inl h1
-    · exact Or.inr h1
-    · exact Or.inr (h.uses_def hs hu)
+    · exact Or.inr (Or.inl h1)
+    · have hva := edge_src_valid (h.stmts s hs) hab (t0 := "tie_0") (t1 := "tie_1") (by decide) (by decide)
+      have := nm_inj (t0 := "tie_0") (t1 := "tie_1") (by decide) hva (plain_valid hpl) he1
+      subst this
+      exact Or.inr (Or.inr ⟨hat, ⟨s, hs, b, hab⟩, fun t ht => hd ⟨t, ht⟩⟩)
+  have hfl_has : ∀ x, Floating bbs r.inputs r.stmts x → st3.c.attr? x = some bufAttr := by
+    intro x hfl
+    obtain ⟨s, hs, b, hb⟩ := hfl.1
+    have he : (x, b) ∈ st3.c.edges := (f3.edges _).2 ⟨s, hs, .net x, b, hb, rfl⟩
+    rcases hdefd x (f3.wf.closed _ he).1 with h1 | ⟨t, ht⟩ | ⟨h1, _⟩
+    · exact absurd h1 (floating_plain h.stmts hfl).not_isTie
+    · exact absurd ht (hfl.2 t)
+    · exact h1
   -- outputs
   have houts : ∀ o ∈ r.outputs, ({ st3.c with name := r.name } : Circuit).has o = true := by
     intro o ho
@@ -227,6 +258,16 @@ theorem full_spec {r : RMod} {bbs : List BBox} (h : Restricted r bbs) (ord : Ord
     show Option.map _ (st3.c.attr? x) = _
     rw [f3.def_ x t hd]
     by_cases hx : x ∈ r.outputs <;> simp [hx]
+  have hfl4 : ∀ x, Floating bbs r.inputs r.stmts x → c4.attr? x = some bufAttr := by
+    intro x hfl
+    rw [at4]
+    show Option.map _ (st3.c.attr? x) = _
+    rw [hfl_has x hfl]
+    have hx : x ∉ r.outputs := by
+      intro ho
+      obtain ⟨t, ht⟩ := h.out_def ho
+      exact hfl.2 t ht
+    simp [hx]
   have hout_nt : ∀ x, VR.isTie x → x ∉ r.outputs := by
     intro x hx ho
     obtain ⟨t, ht⟩ := h.out_def ho
@@ -272,7 +313,7 @@ theorem full_spec {r : RMod} {bbs : List BBox} (h : Restricted r bbs) (ord : Ord
           simpa using hv.symm
         · rw [f3.tie1] at hv
           have := tnm_c1 hval e.symm; subst this
-          right; right
+          right; right; left
           refine ⟨rfl, ?_, s, hs, v, hx⟩
           simpa using hv.symm
         · exfalso
@@ -288,12 +329,15 @@ theorem full_spec {r : RMod} {bbs : List BBox} (h : Restricted r bbs) (ord : Ord
             have : c4.has n = true := has_of_attr' hc
             rw [has_iff_mem, nn4, ← has_iff_mem] at this
             exact this
-        rcases hdefd n hhas with h1 | ⟨t, ht⟩
+        rcases hdefd n hhas with h1 | ⟨t, ht⟩ | ⟨hat, hfl⟩
         · exact absurd h1 hn
         · rw [hattr4 n t ht] at hv
           left
           exact ⟨t, ht, by simpa using hv.symm⟩
-    · rintro (⟨t, ht, rfl⟩ | ⟨rfl, rfl, s, hs, b, hb⟩ | ⟨rfl, rfl, s, hs, b, hb⟩)
+        · rw [hfl4 n hfl] at hv
+          right; right; right
+          exact ⟨hfl, by simpa [bufAttr] using hv.symm⟩
+    · rintro (⟨t, ht, rfl⟩ | ⟨rfl, rfl, s, hs, b, hb⟩ | ⟨rfl, rfl, s, hs, b, hb⟩ | ⟨hfl, rfl⟩)
       · rw [at7 n (f3.defName n t ht), hattr4 n t ht]
         rfl
       · have he : ("tie_0", b) ∈ c4.edges := (hedge4 _).2 ⟨s, hs, .c0, b, hb, rfl⟩
@@ -301,6 +345,8 @@ theorem full_spec {r : RMod} {bbs : List BBox} (h : Restricted r bbs) (ord : Ord
         rfl
       · have he : ("tie_1", b) ∈ c4.edges := (hedge4 _).2 ⟨s, hs, .c1, b, hb, rfl⟩
         rw [tk7 _ (Or.inr (Or.inl rfl)) ⟨b, he⟩, htie4 _ (Or.inr (Or.inl rfl)), f3.tie1]
+        rfl
+      · rw [at7 n (floating_plain h.stmts hfl).not_isTie, hfl4 n hfl]
         rfl
   · intro e; rw [ed7]; exact hedge4 e
   · intro q; rw [bb7, bb4]; exact f3.bbs q
